@@ -284,7 +284,22 @@ class ListGen(object):
                 cur[lf["name"]] = 0
             elif r < 0.6 and lf["randsz"]:
                 ops.append({"op": "l_append", "var": "o", "path": [lf["name"]], "value": rnd.randint(0, 3)})
+            normal_at = len(ops)
             ops.append({"op": "randomize", "var": "o", "inline": None})
+            # a free-standing call over one random scalar whose inline block refers to an element by constant index (often the
+            # one appended last): the element is not passed, so it is a constant of the call and keeps its value
+            rs = [f for f in self.scalars if f["rand"]]
+            cand = [x for x in lists if not x["randsz"] and cur[x["name"]] > 0]
+            if rs and cand and not any(x["randsz"] for x in lists) and rnd.random() < 0.4:
+                f, x = rnd.choice(rs), rnd.choice(cand)
+                k = cur[x["name"]] - 1 if rnd.random() < 0.6 else rnd.randrange(cur[x["name"]])
+                self.indexed.add(x["name"])
+                rel = ["bin", rnd.choice(["Lt", "Le", "Ne", "Gt", "Ge"]), ["f", [f["name"]]], ["f", [x["name"], k]]]
+                if rnd.random() < 0.3:
+                    rel = ["bin", rel[1], rel[3], rel[2]]
+                # before or after this round's ordinary call (before: straight after an append / element assignment)
+                ops.insert(normal_at if rnd.random() < 0.5 else len(ops),
+                           {"op": "randomize", "var": "o", "free": [[f["name"]]], "inline": [["expr", rel]]})
         return {"enums": {}, "classes": [cls], "root_cls": "K0", "ops": ops}
 
     def wit_holds(self, st, i=None, lname=None):
